@@ -608,8 +608,43 @@ def r13h(run):
               construct="set_def return", message="set_def does not return the registered (de-duplicated) name")
 
 
+def r13i(run):
+    """generators of different views / modes share no state: nothing is written through a class-level container"""
+    C = run.repo.cls(GEN, "JsonSchemaGenerator")
+    class_level = {k for k, v in C.assigns.items() if isinstance(v, (ast.Dict, ast.List, ast.Set, ast.Call))}
+    total = 0
+    for f in C.methods.values():
+        fa = analysis(f)
+        for n in fa.cfg.nodes:
+            if n.kind != "stmt" or n.ast is None:
+                continue
+            hits = []
+            st = n.ast
+            tg = st.targets if isinstance(st, ast.Assign) else [st.target] if isinstance(st, ast.AugAssign) else []
+            for t in tg:
+                if isinstance(t, ast.Subscript) and isinstance(t.value, ast.Attribute) and unparse(t.value.value) in ("self", "cls") \
+                        and t.value.attr in class_level:
+                    hits.append(t.value.attr)
+            for c in fa.calls_at(n):
+                if isinstance(c.func, ast.Attribute) and isinstance(c.func.value, ast.Attribute) \
+                        and unparse(c.func.value.value) in ("self", "cls") and c.func.value.attr in class_level \
+                        and c.func.attr in ("update", "setdefault", "append", "add", "pop", "clear", "extend"):
+                    hits.append(c.func.value.attr)
+            for h in hits:
+                total += 1
+                run.check("R13i", f, f"`{norm_stmt(st)[:50]}` does not write class-level state", False,
+                          construct=f"generator writes the class-level container {h}",
+                          message=f"{f.qualname}: `{norm_stmt(st)[:70]}` stores into `{h}`, a container defined on the "
+                                  f"class and therefore shared by every generator whatever its mode / view / defs",
+                          necessity="the schema of a rule that embeds a data class depends on the view: whichever view is "
+                                    "generated first is served for the other (the output schema then requires a "
+                                    "no_output field)", node=st)
+    run.ob("R13i", C.ref, "no generator method writes through a class-level container", total == 0,
+           detail=f"class-level containers: {sorted(class_level)}", nontrivial=False)
+
+
 def check(run):
-    run.rules_run += ["R13a", "R13b", "R13c", "R13d", "R13e", "R13f", "R13g", "R13h"]
+    run.rules_run += ["R13a", "R13b", "R13c", "R13d", "R13e", "R13f", "R13g", "R13h", "R13i"]
     run.explain("Static tables-and-views check of the JSON-Schema generator: keyword, primitive, operator and format "
                 "tables folded from source and compared with the JSON-Schema vocabulary; input/output view members used "
                 "only under the matching self.output polarity; properties / required / dependentRequired keyed alike and "
@@ -625,3 +660,4 @@ def check(run):
     r13f(run)
     r13g(run, F)
     r13h(run)
+    r13i(run)
